@@ -76,7 +76,7 @@ fn spec(cfg: Config, sender: Side, depth: usize, devs: usize) -> SeqSpec {
 
 /// Unmerged sweep (state merging cannot see state hidden inside a backend's cipher object): all K messages are
 /// written, then delivered in order; before every genuine delivery two failing deliveries are made - every ordered
-/// pair from a list of ~22 (altered / stale / future / garbage / oversize messages and undersized buffers, into
+/// pair from a list of ~29 (altered / stale / future / garbage / oversize messages and undersized buffers, into
 /// roomy, exactly payload-sized and in-between buffers) - and the genuine deliveries themselves use roomy,
 /// exactly payload-sized or in-between buffers. Every genuine delivery must still be accepted.
 fn after_rejection_sweep(ctx: &Ctx, cfg: &Config, sender: Side, label: &str) {
@@ -89,8 +89,8 @@ fn after_rejection_sweep(ctx: &Ctx, cfg: &Config, sender: Side, label: &str) {
         pre.push(Op::TWrite { side: sender, plen: [3usize, 40, 4, 17][j % 4], cap: Cap::Roomy });
     }
     let wire = |j: usize| Msg::Wire(sender, hs_written + j);
-    let fails_for = |j: usize| -> Vec<Op> {
-        let mut v = vec![];
+    let fails_for = |j: usize| -> Vec<Vec<Op>> {
+        let mut v: Vec<Op> = vec![];
         let alt = |a: Alter| Msg::Altered(Box::new(wire(j)), a);
         for a in [Alter::FlipBit(9), Alter::FlipLast, Alter::TruncBy(1), Alter::Extend(1, 0)] {
             for cap in [Cap::Roomy, Cap::NeedPlus(0), Cap::NeedPlus(5)] {
@@ -110,6 +110,15 @@ fn after_rejection_sweep(ctx: &Ctx, cfg: &Config, sender: Side, label: &str) {
         if j + 1 < K {
             v.push(Op::TRead { side: recv, msg: wire(j + 1), cap: Cap::NeedPlus(0) });
         }
+        let mut v: Vec<Vec<Op>> = v.into_iter().map(|o| vec![o]).collect();
+        // excursions of the receiving nonce: moved away (to the reserved value, just below it, one ahead), a
+        // delivery rejected there, and moved back to where it was - nothing may stick
+        let back = Op::SetRecvNonce { side: recv, n: j as u64 };
+        for away in [u64::MAX, u64::MAX - 1, j as u64 + 1] {
+            v.push(vec![Op::SetRecvNonce { side: recv, n: away }, Op::TRead { side: recv, msg: wire(j), cap: Cap::Roomy }, back.clone()]);
+            v.push(vec![Op::SetRecvNonce { side: recv, n: away }, Op::TRead { side: recv, msg: Msg::Garbage(24, 7), cap: Cap::Roomy }, back.clone()]);
+        }
+        v.push(vec![Op::SetRecvNonce { side: recv, n: u64::MAX }, back.clone()]);
         v
     };
     let n_f = fails_for(1).len();
@@ -119,8 +128,8 @@ fn after_rejection_sweep(ctx: &Ctx, cfg: &Config, sender: Side, label: &str) {
         let mut ops = pre.clone();
         for j in 0..K {
             let f = fails_for(j);
-            ops.push(f[a % f.len()].clone());
-            ops.push(f[b % f.len()].clone());
+            ops.extend(f[a % f.len()].iter().cloned());
+            ops.extend(f[b % f.len()].iter().cloned());
             ops.push(Op::TRead { side: recv, msg: wire(j), cap: policies[*pol][j % 2].clone() });
         }
         let e = sess::run(cfg, &ops);
@@ -134,6 +143,25 @@ fn after_rejection_sweep(ctx: &Ctx, cfg: &Config, sender: Side, label: &str) {
         }
     });
     ctx.count("after_rejection_sequences", jobs.len() as u64);
+    // the largest messages are messages too: payloads at and just below the 65519-byte maximum, in order, with a
+    // rejected delivery before each
+    let sizes = [65519usize, 65504, 65518, 65503];
+    let mut ops = sess::handshake_ops(&proto, &[0, 0, 0, 0]);
+    ops.extend(sess::convert_ops(Mode::TT));
+    for plen in sizes {
+        ops.push(Op::TWrite { side: sender, plen, cap: Cap::Roomy });
+    }
+    for j in 0..sizes.len() {
+        ops.push(Op::TRead { side: recv, msg: Msg::Altered(Box::new(wire(j)), Alter::FlipLast), cap: Cap::Roomy });
+        ops.push(Op::TRead { side: recv, msg: wire(j), cap: if j % 2 == 0 { Cap::Roomy } else { Cap::NeedPlus(0) } });
+    }
+    let e = sess::run(cfg, &ops);
+    ctx.add(&ctx.evaluations, 1);
+    ctx.add(&ctx.transitions, e.steps.len() as u64);
+    ctx.add(&ctx.traces, 1);
+    if let Some(m) = sess::filter(&e, &CATS).first() {
+        ctx.violation(format!("{} (messages of the maximum size delivered in order)", sess::signature(&e, m)), format!("{label}: {}", m.detail), sess::case_json(cfg, &ops[..=m.step.min(ops.len() - 1)]));
+    }
 }
 
 fn configs() -> Vec<(Config, Side, String)> {
